@@ -4,6 +4,17 @@ from autograd import jacobian
 from scipy.integrate import quad as squad
 
 
+def _weight_function(weight, wvar, x):
+    """Value of the weight function of scipy.integrate.quad at x, needed for the derivative with respect to an integration limit."""
+    if weight is None:
+        return 1.0
+    if weight == 'cos':
+        return np.cos(wvar * x)
+    if weight == 'sin':
+        return np.sin(wvar * x)
+    raise NotImplementedError("Obs valued integration limits are only implemented for the weights 'cos' and 'sin'.")
+
+
 def quad(func, p, a, b, **kwargs):
     '''Performs a (one-dimensional) numeric integration of f(p, x) from a to b.
 
@@ -77,7 +88,7 @@ def quad(func, p, a, b, **kwargs):
 
     for i in range(2):
         if isobs_b[i]:
-            derivint.append(bsign[i] * func(pval, bval[i]))
+            derivint.append(bsign[i] * func(pval, bval[i]) * _weight_function(ikwargs.get('weight'), ikwargs.get('wvar'), bval[i]))
 
     if len(derivint) == 0:
         return integration_result
